@@ -251,6 +251,9 @@ let extracted_lin (inp : string list) (obs : string list) : bool option =
     Some (linearizable fl_apply f_init (parse_history (after_h obs)))
   | ["LIN"; "pool"; _; _; _] ->
     Some (linearizable pl_apply pool_start (parse_history (after_h obs)))
+  | ["POOLMID"] ->
+    let st3 = List.fold_left (fun st o -> fst (pl_step flag_key st o)) pool_start [POpen (nm "c"); PUnder (nm "c")] in
+    Some (linearizable pl_apply st3 (parse_history (after_h obs)))
   | ["LIN"; "buffer"; _; _; _] | ["EBMID"] ->
     (match parse_dag obs with
      | Some d -> Some (linearizable (buf_apply d) buf_st0 (parse_history (after_h obs)))
@@ -270,7 +273,7 @@ let eval inp obs =
       note = (if bad = [] then "" else "rows violating the lock discipline: " ^
                 String.concat "," (List.map (fun (ty, m, _, _) -> ty ^ "." ^ m) bad)) ^
              (if missing = [] then "" else " methods without a row: " ^ String.concat "," missing) }
-  | kind :: _ when kind = "LIN" || kind = "STRESS" || kind = "EBMID" || kind = "SNAPMID" ->
+  | kind :: _ when kind = "LIN" || kind = "STRESS" || kind = "EBMID" || kind = "SNAPMID" || kind = "POOLMID" ->
     let race = not (has_tok "race=0" obs) in
     let crash = has_tok "crash=1" obs || has_tok "hang=1" obs in
     let wants_lin = kind <> "STRESS" in
